@@ -45,6 +45,7 @@ theorem apply_prioLoop_nf {N : Nat} {s : State} (hc : Clean s) (e : Ev) (he : e.
     · split <;> rfl
     · rfl
   | finish => simp only [State.apply]; split <;> rfl
+  | badRelease k => rfl
   | cancel i => simp [Ev.orderly] at ho
   | throw i x => simp [Ev.orderly] at ho
   | interrupt i x => simp [Ev.orderly] at ho
@@ -185,6 +186,7 @@ theorem rki_apply {N : Nat} {s : State} (hI : Inv s) (hc : Clean s) (hord : Ord 
         · intro j; by_cases c2 : j = i <;> simp [c2]
         · intro j; by_cases c2 : j = i <;> simp [c2]
     · exact h
+  | badRelease k => exact h
   | cancel i => simp [Ev.orderly] at ho
   | throw i x => simp [Ev.orderly] at ho
   | interrupt i x => simp [Ev.orderly] at ho
